@@ -134,6 +134,30 @@ func genKeys(rng *rand.Rand) (string, interface{}, bool) {
 		ann["plain"] = "v"
 		ann[prefixes[0]] = "noslash"
 	}
+	// names a normalising reader would identify with one of the above: letter case of the key
+	// or of the prefix, "_" for "-", blanks around the key -- the code compares names exactly,
+	// so each of them is a key of its own (or no key at all), with its own value
+	normalised := false
+	if rng.Intn(2) == 0 {
+		for _, name := range hx.SortedKeys(ann) {
+			i := strings.Index(name, "/")
+			if i < 0 || rng.Intn(2) == 0 {
+				continue
+			}
+			pre, key := name[:i], name[i+1:]
+			if key == "" {
+				continue
+			}
+			vs := []string{pre + "/" + strings.ToUpper(key), pre + "/" + strings.ToUpper(key[:1]) + key[1:],
+				pre + "/" + strings.ReplaceAll(key, "-", "_"), pre + "/ " + key, pre + "/" + key + " ",
+				strings.ToUpper(pre[:1]) + pre[1:] + "/" + key, strings.ToUpper(pre) + "/" + key, pre + "//" + key}
+			v := vs[rng.Intn(len(vs))]
+			if _, ok := ann[v]; !ok {
+				ann[v] = ann[name] + "x"
+				normalised = true
+			}
+		}
+	}
 	out := ingress.VerifReadConfigKeys(prefixes, ann)
 	// non-trivial: some key offered by two prefixes with distinct values
 	clash := false
@@ -150,7 +174,7 @@ func genKeys(rng *rand.Rand) (string, interface{}, bool) {
 		}
 	}
 	return fmt.Sprintf("CKeys @ID@ %s %s %s", coqStrs(prefixes), coqAnn(ann), coqAnn(out)),
-		map[string]interface{}{"prefixes": prefixes, "annotations": ann, "observed": out}, clash
+		map[string]interface{}{"prefixes": prefixes, "annotations": ann, "observed": out}, clash || normalised
 }
 
 // ---------------------------------------------------------------- CMapper
